@@ -1246,6 +1246,91 @@ def lemmas_c04():
             ('C04.diffusion_only', {'C04'}, Implies(pre, v + 2 * e > v))]
 
 
+# =========================================================================== U7a constructors of the wake maps
+class WakeKickMapCtor(Contract):
+    """WakeKickMap(in, out, it, interpol_clamp, oclh): a KickMap in energy direction whose table has ONE ROW SET PER BUNCH
+    (_lastbunch == nb-1): every bunch is kicked by its own wake potential (C05/C08); the shared-row shortcut is the RF map's"""
+    name = 'vfps::WakeKickMap::WakeKickMap'
+    tu = 'src/SM/WakeKickMap.cpp'
+    params = ['in', 'out', 'it', 'interpol_clamp', 'oclh']
+    tags = {'C05', 'C08', 'C17'}
+    ghosts = {'k': 'int'}
+
+    def requires(self, cx):
+        nx, ny, nb = ps_globals(cx)
+        it = cx.a('it')
+        return [('static', PS_static(cx)), ('it', And(it >= 1, it <= 4)), ('tablefits', nx * nb * 4 < 2 ** 32)]
+
+    def assigns(self, cx):
+        return [('s', 'this.*'), ('r', 'this._hinfo'), ('r', 'this._offset'), ('len', 'this._offset')]
+
+    def effect(self, cx):
+        KickMapCtor.effect(self, cx)
+
+    @property
+    def calls(self):
+        return {'ctor:vfps::KickMap': Use(KickMapCtor(), inst=lambda cx: [{'k': cx.ghost_of('k')}])}
+
+    def ensures(self, cx):
+        nx, ny, nb = ps_globals(cx)
+        k = cx.g('k')
+        return [('valid', {'C17', 'C08'}, KM_valid(cx)),
+                ('energy_direction', {'C05', 'C08'}, cx.f('this._kickdirection', 'u8') == 1),
+                ('one_row_set_per_bunch', {'C05', 'C08'}, cx.f('this._lastbunch') == nb - 1),
+                ('offset_zero', {'C08'}, Implies(And(k >= 0, k < nx * nb), cx.sel('this._offset', k) == 0))]
+
+
+class WakePotentialMapCtor(WakeKickMapCtor):
+    """WakePotentialMap(in, out, field, it, interpol_clamp, oclh): the same, bound to the field it takes the wake potential from"""
+    name = 'vfps::WakePotentialMap::WakePotentialMap'
+    tu = 'src/SM/WakePotentialMap.cpp'
+    params = ['in', 'out', 'field', 'it', 'interpol_clamp', 'oclh']
+
+    @property
+    def calls(self):
+        return {'ctor:vfps::WakeKickMap': Use(WakeKickMapCtor(), inst=lambda cx: [{'k': cx.ghost_of('k')}])}
+
+
+class WakeMapsKeepOwnRows(Contract):
+    """Facts of the real AST, for code shapes the constructor contracts above cannot execute: nothing in WakeKickMap.cpp /
+    WakePotentialMap.cpp writes KickMap::_lastbunch -- it keeps the value the KickMap constructor gives it (nb-1, contract
+    KickMapCtor#lastbunch): one row set per bunch.  (The RF map sets it to 0 on purpose: RFKickMapLinearCtor#shared_map.)"""
+    name = 'vfps::WakePotentialMap::*'
+    tu = 'src/SM/WakePotentialMap.cpp'
+    tags = {'C05', 'C08'}
+
+    def custom_verify(self, scratch, tc):
+        from vf.vcg import Exec
+        from vf.state import Obligation
+        from vf.unit import _walk
+        from vf.ast import line_of
+        writes = []
+        sha = None
+        for rel in ('src/SM/WakePotentialMap.cpp', 'src/SM/WakeKickMap.cpp'):
+            tu = tc.get(rel)
+            sha = sha or tu.sha
+            for q, fl in tu.funcs.items():
+                if not (q.startswith('vfps::WakePotentialMap::') or q.startswith('vfps::WakeKickMap::')):
+                    continue
+                for f in fl:
+                    for n in _walk(f):
+                        if n.get('kind') in ('BinaryOperator', 'CompoundAssignOperator') and (n.get('opcode') or '').endswith('=') and n.get('opcode') not in ('==', '!=', '<=', '>='):
+                            lhs = n['inner'][0]
+                            if any(x.get('kind') == 'MemberExpr' and x.get('name') == '_lastbunch' for x in _walk(lhs)):
+                                writes.append((rel, line_of(n)))
+                        if n.get('kind') == 'UnaryOperator' and n.get('opcode') in ('++', '--') and any(x.get('kind') == 'MemberExpr' and x.get('name') == '_lastbunch' for x in _walk(n)):
+                            writes.append((rel, line_of(n)))
+                        if n.get('kind') == 'CXXCtorInitializer' and (n.get('anyInit') or {}).get('name') == '_lastbunch':
+                            writes.append((rel, line_of(n)))
+        tu0 = tc.get(self.tu)
+        ex = Exec(tu0, None, 'WakePotentialMap')
+        ex.default_tags = set(self.tags)
+        ex.obls = [Obligation('WakePotentialMap#rows.one_row_set_per_bunch_is_kept', {'C05', 'C08'}, [], z3.BoolVal(not writes), 'postcondition', None,
+                              f'writes to KickMap::_lastbunch in the wake maps: {writes}'),
+                   Obligation('WakePotentialMap#canary', set(), [], z3.BoolVal(False), 'canary', None, '')]
+        return [ex], {'unit': self.name, 'file': self.tu + ' + src/SM/WakeKickMap.cpp', 'sha': sha, 'cases': 1, 'lines': [None, None], 'extract_s': 0}
+
+
 # =========================================================================== U7 WakePotentialMap::update
 class WakePotentialMapUpdate(Contract):
     name = 'vfps::WakePotentialMap::update'
